@@ -82,25 +82,73 @@ Section WfTypes.
     rewrite IH. split; [intros [? ?]; constructor; assumption | intro H; inversion H; tauto].
   Qed.
 
+  (* a literal that matches its struct has no array inside an array *)
+  Lemma json_wt_no_nested : forall j t, json_wt P t j -> nested_in j = 0.
+  Proof.
+    intro j. induction j using json_ind'; intros t Hw; try reflexivity.
+    - destruct t as [[| | |s0]|]; try (destruct Hw; fail). cbn [json_wt] in Hw.
+      destruct Hw as (sd & _ & _ & _ & Hgo). cbn [nested_in].
+      induction fs as [|[k v] r IHr]; [reflexivity|]. inversion H; subst.
+      destruct Hgo as [[t' [_ Hv]] Hr]. cbn [snd] in H2. rewrite (H2 t' Hv). cbn [Nat.add]. apply IHr; assumption.
+    - destruct t as [[| | |s0]|p1 len]; try (destruct Hw; fail). cbn [json_wt] in Hw. destruct Hw as [_ Hgo].
+      cbn [nested_in]. induction es as [|e r IHr]; [reflexivity|]. inversion H; subst. destruct Hgo as [He Hr].
+      assert (He0 : match e with JArr _ => 1 | _ => nested_in e end = 0).
+      { destruct e; try (apply (H2 (TPlain p1)); exact He). destruct p1; destruct He. }
+      rewrite He0. cbn [Nat.add]. apply IHr; assumption.
+  Qed.
+
+  Lemma lit_visit_errs_wf : forall vars ti pi lv ins,
+    Forall (fun x => exists t, param_wt P vars lv x t) ins -> lit_visit_errs ti pi ins = [].
+  Proof.
+    intros vars ti pi lv ins H. unfold lit_visit_errs. generalize 0.
+    induction ins as [|x r IH]; intro n; [reflexivity|]. inversion H; subst.
+    cbn [index_from flat_map fst snd]. rewrite IH by assumption.
+    destruct x as [| |s j]; try reflexivity. destruct H2 as [t [_ Hw]].
+    rewrite (json_wt_no_nested _ _ Hw). reflexivity.
+  Qed.
+
+  Lemma call_wf_params_typed : forall vars lv c,
+    call_wf P vars lv c -> Forall (fun x => exists t, param_wt P vars lv x t) (c_ins c).
+  Proof.
+    intros vars lv c (callee & _ & _ & Hl1 & _ & Hins & _).
+    assert (Hex : forall (l1 : list param) (l2 : list (name * vtype)), length l1 = length l2 ->
+              Forall (fun pf => param_wt P vars lv (fst pf) (snd (snd pf))) (combine l1 l2) ->
+              Forall (fun x => exists t, param_wt P vars lv x t) l1).
+    { induction l1 as [|a r IH]; intros l2 Hl HF; [constructor|].
+      destruct l2 as [|b r2]; [discriminate|]. cbn [combine] in HF. inversion HF; subst.
+      constructor; [eexists; exact H1 | eapply IH; [|exact H2]; cbn in Hl; lia]. }
+    eapply Hex; eassumption.
+  Qed.
+
+  Lemma call_wf_visit_errs : forall vars ti pi lv c,
+    call_wf P vars lv c -> lit_visit_errs ti pi (c_ins c) ++ outs_visit_errs ti pi (c_outs c) = [].
+  Proof.
+    intros vars ti pi lv c Hw. rewrite (lit_visit_errs_wf vars ti pi lv _ (call_wf_params_typed _ _ _ Hw)).
+    destruct Hw as (callee & _ & Ho & _). cbn [app]. apply outs_wf_visit_errs. exact Ho.
+  Qed.
+
   Lemma stmt_wf_visit_errs : forall vars ti s lv pi,
     stmt_wf P vars lv s -> stmt_visit_errs ti pi s = [].
   Proof.
     intros vars ti s. induction s using stmt_ind'; intros lv pi Hw; rewrite stmt_visit_errs_unfold;
       cbn [stmt_wf] in Hw.
-    - apply outs_wf_visit_errs. apply Hw.
-    - destruct Hw as (callee & _ & Ho & _). apply outs_wf_visit_errs. exact Ho.
+    - destruct Hw as [Hins Ho]. rewrite (lit_visit_errs_wf vars ti pi lv _ Hins). cbn [app].
+      apply outs_wf_visit_errs. exact Ho.
+    - eapply call_wf_visit_errs. exact Hw.
     - destruct Hw as [_ Hw]. rewrite Forall_forall in Hw.
-      assert (Hall : forall i, flat_map (fun ic : nat * call => outs_visit_errs ti (pi ++ [fst ic]) (c_outs (snd ic)))
+      assert (Hall : forall i, flat_map (fun ic : nat * call =>
+                                           lit_visit_errs ti (pi ++ [fst ic]) (c_ins (snd ic))
+                                           ++ outs_visit_errs ti (pi ++ [fst ic]) (c_outs (snd ic)))
                                         (index_from i cs) = []).
       { induction cs as [|c r IH]; intro i; [reflexivity|]. cbn [index_from flat_map fst snd].
-        destruct (Hw c (or_introl eq_refl)) as (callee & _ & Ho & _).
-        rewrite (outs_wf_visit_errs _ _ _ Ho). cbn [app]. apply IH. intros. apply Hw. right. assumption. }
+        rewrite (call_wf_visit_errs vars ti _ lv c (Hw c (or_introl eq_refl))). cbn [app].
+        apply IH. intros. apply Hw. right. assumption. }
       apply Hall.
     - destruct Hw as (_ & _ & Hb). apply go_wf_forall in Hb. rewrite Forall_forall in H, Hb.
       apply concat_from_nil. intros j x Hin. eapply H; [exact Hin | apply Hb; exact Hin].
     - destruct Hw as [_ Hw]. destruct par.
-      + destruct Hw as (c & -> & callee & _ & Ho & _). cbn [concat_from].
-        rewrite stmt_visit_errs_unfold. rewrite (outs_wf_visit_errs _ _ _ Ho). reflexivity.
+      + destruct Hw as (c & -> & Hcw). cbn [concat_from].
+        rewrite stmt_visit_errs_unfold. rewrite (call_wf_visit_errs vars ti _ _ c Hcw). reflexivity.
       + destruct Hw as [_ Hb]. apply go_wf_forall in Hb. rewrite Forall_forall in H, Hb.
         apply concat_from_nil. intros j x Hin. eapply H; [exact Hin | apply Hb; exact Hin].
     - destruct Hw as (_ & _ & Hp & Hf). apply go_wf_forall in Hp. apply go_wf_forall in Hf.
